@@ -115,6 +115,33 @@ def main(ctx: Ctx):
                 sig = f'differs-from-direct:{kind}:{cls}' + (':not-finished' if got[0] == 'not-finished' else '')
                 ctx.fail(sig, f'{kind} worker ({"Worker.create" if via_create else "constructor"}) running {fn.__name__}{a!r}{k!r}: {repr(got)[:120]} instead of {repr(exp)[:120]}',
                          {'target': fn.__name__, 'args': list(a), 'kwargs': k, 'kind': kind, 'via_create': via_create, 'result_bytes': size, 'pipe_capacity': cap})
+        # ---- remote kind, big result, parent draining the data connection slowly (the backend exits long before)
+        import pyworkers.remote as R
+        orig_exact = R._recv_exact
+
+        def slow_exact(sock, n):
+            if n < (1 << 20):
+                return orig_exact(sock, n)
+            chunks = []
+            while n:                       # small reads with pauses: the sender's data stays in its socket buffer
+                c = sock.recv(min(32768, n))
+                if not c:
+                    raise R.ConnectionClosedError()
+                n -= len(c)
+                chunks.append(c)
+                time.sleep(0.01)
+            return b''.join(chunks)
+        R._recv_exact = slow_exact
+        try:
+            w = mk('remote', sess, TG.f_bytes, (4 << 20,), {}, False)
+            st, r = watchdog(lambda: w.wait(20), 40)
+            got = observed(w) if st == 'ok' and r else ('not-finished', st, r)
+            ok = got[0] == 'ok' and isinstance(got[1], bytes) and len(got[1]) == (4 << 20)
+            ctx.case(('remote-slow-reader',), True, sample={'case': '4 MiB result, parent reads slowly', 'outcome': (got[0], len(got[1]) if ok else repr(got)[:80])})
+            if not ok:
+                ctx.fail('differs-from-direct:remote:big:slow-reader', f'remote worker returning 4 MiB while the parent drains the connection slowly: {repr(got)[:120]}', {'target': 'f_bytes', 'args': [4 << 20], 'kind': 'remote', 'scenario': 'slow-reader'})
+        finally:
+            R._recv_exact = orig_exact
         # ---- not-run workers and the create() table
         from pyworkers.worker import Worker, WorkerType
         from pyworkers.persistent import PersistentWorker
